@@ -11,7 +11,7 @@ from symv.dense import LayoutError, chargevec, describe, embed, is_fermionic, st
 
 META = {
     "level": "exploration",
-    "level_text": "One tensor specification (indices, directions, charge, block values) is fed to every constructor - plain constructor, from_blocks, from_fill_fn, from_dense (class method and utils function), random (validity only) - of the static and the generic classes (symmetry as string and as object), with every combination of omitted optional arguments that the documented defaults make meaningful; all results must densify (harness densifier) to the same tensor with the same charge, directions and charge tables. to_dense -> from_dense with sorted labels is the identity; from_dense -> to_dense on an arbitrary dense array with unsorted, interleaved labels equals the harness projection (zero outside charge-conserving sectors, stable sort by charge). A documented call form that raises is a violation. Later additions: histories of sibling labelings (hash twins, one label changed, swaps, repeats), label maps as list / tuple / ndarray / dict in any insertion order, directions as ints / ndarray, axes of 97-260 positions, mixed-dtype dense round trips, total charges no sector conserves. Round 9: user-defined symmetries through the generic constructors.",
+    "level_text": "One tensor specification (indices, directions, charge, block values) is fed to every constructor - plain constructor, from_blocks, from_fill_fn, from_dense (class method and utils function), random (validity only) - of the static and the generic classes (symmetry as string and as object), with every combination of omitted optional arguments that the documented defaults make meaningful; all results must densify (harness densifier) to the same tensor with the same charge, directions and charge tables. to_dense -> from_dense with sorted labels is the identity; from_dense -> to_dense on an arbitrary dense array with unsorted, interleaved labels equals the harness projection (zero outside charge-conserving sectors, stable sort by charge). A documented call form that raises is a violation. Later additions: histories of sibling labelings (hash twins, one label changed, swaps, repeats), label maps as list / tuple / ndarray / dict in any insertion order, directions as ints / ndarray, axes of 97-260 positions, mixed-dtype dense round trips, total charges no sector conserves. Round 9: user-defined symmetries through the generic constructors. Round 10: almost regularly spaced labels (repeated motif or sorted runs with point mutations) along 6-14 positions.",
     "technique": "runtime monitoring: cross-constructor differential with independent densifier + projection oracle for dense round trips",
     "rule": (
         "one evaluation = one constructor / conversion call compared with the specification or the projection oracle. Non-trivial = >=2 indices with >=2 charges, a dual index, and "
